@@ -22,6 +22,7 @@ HARNESS = {
     "C14": "c14_c16",
     "C16": "c14_c16",
     "C15": "c15",
+    "C20": "c20",
     "C19": "c13_c19",
 }
 
